@@ -290,6 +290,9 @@ func TestC11AllPaths(t *testing.T) { Check(t, c11AllPaths) }
 type c12Case struct {
 	flowCase
 	After []int `json:"after"` // arguments of the Next calls made after the first end
+	// Faulty: the script contains jumps to nodes that do not exist (errors, after which the dialogue goes on with the next
+	// statement): the runner is driven past every error until it reports the end itself
+	Faulty bool `json:"faulty,omitempty"`
 }
 
 func runC12(c c12Case) Verdict {
@@ -300,10 +303,10 @@ func runC12(c c12Case) Verdict {
 	if m.diverged {
 		return Verdict{Discard: "script runs more than 300 statements without yielding"}
 	}
-	if m.stats.errs > 0 && !m.sawBoom {
+	if m.stats.errs > 0 && !m.sawBoom && !c.Faulty {
 		return Verdict{Discard: "generated script is not fault-free"}
 	}
-	if !m.sawBoom && (len(m.trace) == 0 || m.trace[len(m.trace)-1].K != "end") {
+	if !m.sawBoom && !c.Faulty && (len(m.trace) == 0 || m.trace[len(m.trace)-1].K != "end") {
 		return Verdict{Discard: "no end within the element limit"}
 	}
 	h, err := newHost(srcs, "abc", c.Vars)
@@ -317,7 +320,7 @@ func runC12(c c12Case) Verdict {
 		return make(chan error)
 	})
 	// the runner is driven until it reports the end itself; whether it got there the right way is C01's business
-	h.drive(c.Choices, nil, flowMaxEv, true)
+	h.drive(c.Choices, nil, flowMaxEv, !c.Faulty)
 	if n := len(h.trace); n > 0 && h.trace[n-1].K == "panic" && m.sawBoom {
 		// the host's own panic came out of Next: no end was reported, nothing to check
 		return Verdict{Classes: []string{"host-panic-propagated"}}
@@ -354,6 +357,9 @@ func runC12(c c12Case) Verdict {
 	if m.stats.endAfterOptions {
 		cls = append(cls, "end-right-after-option-group")
 	}
+	if c.Faulty {
+		cls = append(cls, "driven-past-errors")
+	}
 	cls = append(cls, fmt.Sprintf("calls-after-end=%d", len(c.After)))
 	return Verdict{NonTrivial: m.stats.stopWithRest || m.stats.nestedStops > 0 || m.stats.endAfterOptions, Classes: cls}
 }
@@ -361,6 +367,7 @@ func runC12(c c12Case) Verdict {
 var c12End = Register(Prop[c12Case]{
 	ID: "C12", Name: "absorbing-end",
 	Gen: func(t *rapid.T) c12Case {
+		faulty := rapid.IntRange(0, 3).Draw(t, "faulty") == 0
 		o := scriptOpts{maxNodes: 3, maxDepth: 3, maxBody: 4, stopBias: 2, forwardOnly: true, extraStmt: func(g *scriptGen, depth int) *Stmt {
 			if rapid.IntRange(0, 7).Draw(g.t, "eoferr") == 0 {
 				// a host function whose error wraps io.EOF: an error, not the end of the dialogue
@@ -374,13 +381,20 @@ var c12End = Register(Prop[c12Case]{
 				// a host function that panics: whatever Next does about it, it must not claim that the dialogue has ended and then go on
 				return &Stmt{K: "call", Fn: "boom"}
 			}
+			if faulty && rapid.IntRange(0, 2).Draw(g.t, "nowhere") == 0 {
+				// a jump to a node the script does not have: an error, not the end; the statements behind it are still to come
+				if rapid.Bool().Draw(g.t, "computed") {
+					return &Stmt{K: "jumpx", E: bin("+", str("No"), str("where"))}
+				}
+				return &Stmt{K: "jump", Target: "Nowhere"}
+			}
 			if rapid.IntRange(0, 1).Draw(g.t, "wait") == 0 {
 				// a command that completes by itself a little later: the call that sees it finish must go on, not end
 				return &Stmt{K: "cmd", Words: []TextPart{{S: "wait"}, {S: rapid.SampledFrom([]string{"0", "0.0002", "0.002"}).Draw(g.t, "secs")}}}
 			}
 			return nil
 		}}
-		c := c12Case{flowCase: genFlowCase(t, o)}
+		c := c12Case{flowCase: genFlowCase(t, o), Faulty: faulty}
 		c.Junk = nil
 		c.After = rapid.SliceOfN(rapid.SampledFrom([]int{0, 0, 1, 2, 3, 5, 99, -1, -7, 1 << 40}), 1, 6).Draw(t, "after")
 		return c
